@@ -760,6 +760,16 @@ class CallMixin(object):
                 st.heap[f] = new
             elif m == "alloc":
                 pass
+            elif m == "yields":
+                # the sequence of values yielded so far (generator functions)
+                ys = env.get("$yields") or st.env.get("$yields")
+                if ys is None:
+                    raise Undecided("`yields` in a modifies clause of a function that is not a generator")
+                r = u.r(ys.z)
+                for key in ("$len", "$at"):
+                    arr = self.heap_array(st, key)
+                    st.heap[key] = z3.Store(arr, r, u.fresh("hv", arr.sort().range()))
+                st.assume(st.heap["$len"][r] >= 0)
             else:
                 path, f = m.rsplit(".", 1)
                 v, _ = self.spec_value(path, old, env)
